@@ -505,7 +505,7 @@ func (w *World) checkC09(n *Node, s *SentRec, m *Msg, h, v uint64) {
 			} else {
 				found := false
 				for _, d := range n.deliveredThisEpoch() {
-					if d.msg != nil && d.msg.Kind == KVC && bytes.Equal(d.msg.Vote.Raw, vt.Raw) && d.msg.Vote.H == h && d.msg.Vote.V == v {
+					if d.msg != nil && d.msg.Kind == KVC && d.msg.Vote != nil && sameVote(d.msg.Vote, vt) && d.msg.Vote.H == h && d.msg.Vote.V == v {
 						found = true
 						break
 					}
@@ -946,4 +946,11 @@ func (w *World) onBubbleLeak(msg string) {
 
 func (w *World) onGenuineProofRejected(n *Node, sb *StoredBlock, th uint64, err error) {
 	w.violate("C03", "genuine-proof-rejected-on-sync", "n%d rejects the committed pair of h%d obtained from a correct peer: %v", n.idx, th, err)
+}
+
+// sameVote: the same signed statement of the same member. The library re-encodes a received vote when it embeds it
+// in a NEW_VIEW (signed header bytes and sender signature are copied, the envelope is rebuilt), so envelope bytes
+// outside the signed header - alignment padding an adversary may have flipped in transit - are not part of the identity.
+func sameVote(a, b *Vote) bool {
+	return bytes.Equal(a.HeaderRaw, b.HeaderRaw) && a.Sender.Id.Equal(b.Sender.Id) && bytes.Equal(a.Sender.Sig, b.Sender.Sig)
 }
